@@ -766,7 +766,10 @@ def market_cases(draw, max_ops: int = 60, market_frac: int = 2, illegal: bool = 
         # a book that crosses while the market is closed, is carried over one or two clock steps and is cleared by the round that
         # the first order after the re-opening triggers
         n_pre = draw(st.integers(3, 7))
-        pre = [("R", False)] + draw(st.lists(st.one_of(limit, limit, limit, market), min_size=n_pre, max_size=n_pre)) + [("T",)] * draw(st.integers(1, 2)) + [("R", True)]
+        pre = [("R", False)] + draw(st.lists(st.one_of(limit, limit, limit, market), min_size=n_pre, max_size=n_pre))
+        if draw(st.booleans()):
+            pre += [("CB", draw(st.booleans()))]  # the best order of a side withdrawn while the market is closed
+        pre += [("T",)] * draw(st.integers(1, 2)) + [("R", True)]
         at = draw(st.integers(0, min(len(ops), 10)))
         ops = ops[:at] + pre + ops[at:]
     case = {"tick": tick, "p0": p0, "continuous": continuous, "running0": running0, "ops": [list(o) for o in ops]}
